@@ -4,7 +4,8 @@ RULE = ("histories of 1-5 loads of generated TOML documents: valid component gra
         "(shorthand vRIB ribs, unused units, fan-in/fan-out, cycles) and malformed ones (syntax errors, duplicate keys, "
         "unknown top-level keys, unknown types, malformed settings, wrong/absent/ill-typed `sources`, unresolved sources, "
         "a unit and a target of one name); later documents are mutations of earlier ones so that reloads add, remove, "
-        "retype, rewire and reconfigure components; a case is non-trivial when a load is applied on top of an earlier "
+        "retype, rewire and reconfigure components; thorough tier adds every ordered pair of reloads over a 100-document "
+        "universe (two unit names x five shapes, one target x four shapes); a case is non-trivial when a load is applied on top of an earlier "
         "successful load or fails after one; distinct = distinct case text")
 TRUSTED_BASE = [
     "Coq 8.16.1 kernel (coqc; coqchk in thorough); no native_compute",
@@ -200,10 +201,30 @@ def gen_case(rng):
     return ";".join(docs)
 
 
+def small_universe():
+    """every document over two unit names (absent / bmp / mrt / filter<-other / shorthand rib<-other) and one target
+    (absent / null<-1 / null<-2 / file<-1): 100 documents"""
+    def unit(n, other, k):
+        return [None, "u %d 1 - 1 0 1" % n, "u %d 4 - 1 0 1" % n, "u %d 2 A:%d 1 0 1" % (n, other), "u %d 3 A:%d 1 2 1" % (n, other)][k]
+    docs = []
+    for a in range(5):
+        for b in range(5):
+            for t in (None, "t 11 2 S:1 1 0", "t 11 2 S:2 1 0", "t 11 0 S:1 1 2"):
+                parts = ["D 1 1"] + [x for x in (unit(1, 2, a), unit(2, 1, b), t) if x]
+                docs.append(" , ".join(parts))
+    return docs
+
+
 def gen(rng, tier):
     n = 4000 if tier == "quick" else 40000
     for _ in range(n):
         yield gen_case(rng)
+    if tier != "quick":
+        # exhaustive small scope: every ordered pair of reloads over the 100-document universe
+        docs = small_universe()
+        for d1 in docs:
+            for d2 in docs:
+                yield d1 + ";" + d2
 
 
 def nontrivial(case, out):
